@@ -41,7 +41,6 @@ package rangecheck
 //@   ensures 2 <= result && result <= 17
 //@ contract (*commitChecker).buildTable
 //@   props C13
-//@   requires nbTable >= 0 && nbTable <= 131072
 //@   assigns
 //@   ensures len(result) == nbTable && fresh(result)
 //@   loop 1 invariant len(tbl) == nbTable && i >= 0
@@ -51,7 +50,7 @@ package rangecheck
 //@   requires forall k int :: 0 <= k && k < len(c.collected) ==> 0 <= c.collected[k].bits && c.collected[k].bits < 1073741824
 //@   ensures @all-limbs-queried !old(c.closed) && old(len(c.collected)) > 0 ==> len(decomposed) == old(needed(c.collected, baseLength, len(c.collected)))
 //@   loop 1 lemma @needed0 needed(c.collected, baseLength, 0) == 0
-//@   loop 1 lemma @unfold 0 <= rangeindex + 1 && rangeindex + 1 < len(c.collected) ==> needed(c.collected, baseLength, rangeindex + 2) == needed(c.collected, baseLength, rangeindex + 1) + dsz(c.collected[rangeindex + 1].bits, baseLength) + (dsz(c.collected[rangeindex + 1].bits, baseLength) * baseLength > c.collected[rangeindex + 1].bits ? 1 : 0)
+//@   loop 1 lemma @unfold 0 <= rangeindex + 1 && rangeindex + 1 < len(c.collected) ==> needed(c.collected, baseLength, rangeindex + 2) == needed(c.collected, baseLength, rangeindex + 1) + dsz(c.collected[rangeindex + 1].bits, baseLength) + (dsz(c.collected[rangeindex + 1].bits, baseLength) * baseLength - c.collected[rangeindex + 1].bits > 0 ? 1 : 0)
 //@   loop 1 invariant @count len(decomposed) == needed(c.collected, baseLength, rangeindex + 1)
 //@   loop 1 invariant @self c == old(c)
 //@   loop 2 invariant @self c == old(c)
